@@ -261,7 +261,7 @@ func TestC08(t *testing.T) {
 	if shard0() {
 		regressC08(t, c)
 	}
-	rapid.Check(t, func(rt *rapid.T) {
+	checkRapid(t, c, func(rt *rapid.T) {
 		tg := pktTargets[gen.Pick(rt, "decoder", len(pktTargets))]
 		g := gen.New(rt, 2000)
 		var b []byte
